@@ -22,6 +22,7 @@ from enum import Enum
 import ast
 import operator
 import math
+import re
 import time
 
 from ..core.types import Capability
@@ -63,6 +64,15 @@ def _bounded_add(a: Any, b: Any) -> Any:
         if len(a) + len(b) > MAX_SEQUENCE_ITEMS:
             raise OverflowError("Result too large")
     return operator.add(a, b)
+
+
+def _bounded_mod(a: Any, b: Any) -> Any:
+    """operator.mod that refuses %-formatting whose field widths could exceed MAX_SEQUENCE_ITEMS."""
+    if isinstance(a, (str, bytes)):
+        spec = a if isinstance(a, str) else a.decode("latin-1")
+        if "*" in spec or any(int(n) > MAX_SEQUENCE_ITEMS for n in re.findall(r"\d+", spec)):
+            raise OverflowError("Result too large")
+    return operator.mod(a, b)
 
 
 def _bounded_factorial(n: Any) -> Any:
@@ -189,7 +199,7 @@ class Mitochondria:
         ast.Mult: _bounded_mul,
         ast.Div: operator.truediv,
         ast.FloorDiv: operator.floordiv,
-        ast.Mod: operator.mod,
+        ast.Mod: _bounded_mod,
         ast.Pow: _bounded_pow,
         ast.USub: operator.neg,
         ast.UAdd: operator.pos,
